@@ -4,7 +4,8 @@ correspondence : (A) raw kernels of ruge_stuben.h (rs_cf_splitting, rs_cf_splitt
                  arbitrary 0/1 input, cljp_naive_splitting with the libc rand() stream replayed) vs Model/RsModel.lean,
                  Proofs/RsPass2.lean, Model/KCljp.lean (doubles and exact rationals), exact;
                  (B) the public routines RS / PMIS / PMISc / CLJP / CLJPc / MIS of pyamg/classical/split.py vs the
-                 wrapper-level models of Model/C13Wrap.lean (remove_diagonal, transpose, S + S^T, kernel, _set_dirichlet
+                 wrapper-level models of Model/C13Wrap.lean (MIS(G, weights, maxiter), truncated or not: `C17R5.misSplit` of
+                 Model/ExtC17R5Mis.lean, driver op c13r5_mis, theorems mis_partial / mis_full of extension E46) (remove_diagonal, transpose, S + S^T, kernel, _set_dirichlet
                  all inside the model; the theorems of Props/C13.lean are stated about exactly these functions), exact.
 search         : every output of the public routines is judged by independent NumPy checkers of the property (0/1 flags,
                  one per node, reproducible for a fixed seed, a C-point whenever there is an edge, independence /
@@ -36,7 +37,9 @@ META = {
             'non-trivial = the pattern has an off-diagonal entry; distinct = distinct (routine, options, pattern, storage)',
     'search_only': ['reproducibility for a fixed seed on the real code (same NumPy seed twice; the models are functions of the '
                     'pattern and the weights, so equal weights give equal splittings by construction)',
-                    'MIS(G, weights, maxiter): truncated runs are only checked to be partial independent sets'],
+                    'MIS on a NONsymmetric matrix (split.MIS does not symmetrise): not generated; the theorems mis_partial / mis_full '
+                    'assume a symmetric off-diagonal pattern (the kernel-level statement for any pattern is '
+                    'kernel_mis_parallel_partial_any_pattern)'],
     'partial': [],
     'assumptions': ['n >= 1 (a 0 x 0 strength matrix is not generated)',
                     'per instance (checked by the driver, reply `invalid-input` / `negative-weight` / `fuel-exhausted` otherwise): '
@@ -511,7 +514,7 @@ def part_b(ctx, patterns, with_lean=True, configs=CONFIGS, light=False):
             Gm = ((P != 0) | (P != 0).T)
             SG = csr_of(Gm, storage, rng)
             w = rng.integers(0, 4, size=n).astype(float)
-            mi = int(rng.integers(0, 3)) if t % 9 == 0 else None
+            mi = int(rng.integers(0, 4)) if t % 6 == 0 else None
             case = case_of(SG, 'MIS', {'weights': w.tolist(), 'maxiter': mi}, 0, storage=storage)
             ctx.case(key=_key('MIS', hdr, w.tobytes(), mi), nontrivial=has_edge)
             ctx.feat('api:MIS' + ('[maxiter]' if mi is not None else ''))
@@ -529,13 +532,21 @@ def part_b(ctx, patterns, with_lean=True, configs=CONFIGS, light=False):
                     g = f'{n} {enc_ints(SG.indptr)} {enc_ints(SG.indices)}'
                     out = enc_ints(x)
                     items.append((f'c13_pmis {g} {enc_rats(w)} 0', out + ';' + out, 'MIS', case, has_edge))
+                    # E46: the model of MIS itself (`C17R5.misSplit`: no symmetrisation), `mis_full`
+                    items.append((f'c13r5_mis {g} {enc_rats(w)} -', out, 'MIS(model misSplit)', case, has_edge))
             else:
-                # truncated run: flags are -1/0/1 and the C set is independent
+                # truncated run (theorem `mis_partial`): flags are -1/0/1, every neighbour of a selected node is marked 0
+                # (so the C set is independent), every node marked 0 has a selected neighbour
                 xa = np.asarray(x)
                 Go = Gm & ~np.eye(n, dtype=bool)
                 c = xa == 1
-                if not np.isin(xa, (-1, 0, 1)).all() or (Go & c[:, None] & c[None, :]).any():
+                f0 = xa == 0
+                if (not np.isin(xa, (-1, 0, 1)).all() or (Go & c[:, None] & c[None, :]).any()
+                        or (Go & c[:, None] & ~f0[None, :]).any() or (f0 & ~(Go & c[None, :]).any(1)).any()):
                     ctx.violation(f'MIS(maxiter={mi}): result {xa.tolist()[:60]} is not a partial independent set', case)
+                if with_lean:
+                    g = f'{n} {enc_ints(SG.indptr)} {enc_ints(SG.indices)}'
+                    items.append((f'c13r5_mis {g} {enc_rats(w)} {mi}', enc_ints(x), f'MIS(maxiter={mi})', case, has_edge))
 
     idle()
     if with_lean and items:
